@@ -21,7 +21,12 @@ fn operands<F: Flt>(l: &Layout, reals: &[f64], salt: usize) -> Vec<Parts<F>> {
         for pat in 0..(1usize << g) {
             let present: Vec<bool> = (0..g).map(|i| pat & (1 << i) == 0).collect();
             let vals: Vec<F> = (0..l.nslots()).map(|i| F::from64(if i == 0 { *re } else { part_value(i + salt + k, 1 + (i + k) % 3) })).collect();
-            out.push(Parts { vals, present });
+            out.push(Parts { vals: vals.clone(), present: present.clone() });
+            // the same with every other derivative entry exactly zero (unit-seed like patterns)
+            if k == 0 {
+                let sparse: Vec<F> = vals.iter().enumerate().map(|(i, v)| if i > 0 && (i + pat) % 2 == 0 { F::zero() } else { *v }).collect();
+                out.push(Parts { vals: sparse, present });
+            }
         }
     }
     out
@@ -276,6 +281,20 @@ macro_rules! field_checks {
                             sig: format!("method clamp {tn}"),
                             case: json!({"type": tn, "x": parts_to_json(px)}),
                             what: format!("clamp: slot {} is not that of the selected operand", l.slots[i].name),
+                        });
+                    }
+                }
+                // clamp of a NaN stays NaN (as for floats)
+                {
+                    let mut pn = px.clone();
+                    pn.vals[0] = F::from64(f64::NAN);
+                    let c = RealField::clamp(mk(&pn), mk(&ys[0]), mk(&ys[ys.len() - 1]));
+                    $st.evaluations += 1;
+                    if ys[0].vals[0] <= ys[ys.len() - 1].vals[0] && !c.re().is_nan() {
+                        $st.violation(Violation {
+                            sig: format!("method clamp {tn} nan"),
+                            case: json!({"type": tn, "x": parts_to_json(&pn)}),
+                            what: format!("clamp(NaN; lo, hi) has real part {:e}, the float method gives NaN", c.re() as f64),
                         });
                     }
                 }
